@@ -56,7 +56,7 @@ def run_cases(sel, timeout=1500):
     out = {}
     for c in sel:
         t0 = time.time()
-        p = subprocess.run(['cargo', 'test', '--offline', '--config', 'profile.dev.package."*".opt-level=2', '--lib', 'verif_rp_' + c['name'], '--', '--nocapture', '--test-threads', '1'],
+        p = subprocess.run(['cargo', 'test', '--offline', '--config', 'profile.dev.package."*".opt-level=2', '--lib', 'verif_rp_' + c['name'] + '::', '--', '--nocapture', '--test-threads', '1'],
                            cwd=WORK, env=env, capture_output=True, text=True, timeout=timeout)
         txt = p.stdout + '\n' + p.stderr
         ran = re.search(r'test result: (\w+)\. (\d+) passed; (\d+) failed', txt)
